@@ -126,6 +126,15 @@ theorem untouched (v : Venue) (x hi : Nat) (side : Side) (p : Rat) (hx : x ≤ h
     (hn : ¬ Touched v x hi side p) : bookAt v hi side p = bookAt v x side p :=
   bookAt_untouched v x hi side p hx hn
 
+/-- reading of `bookAt` for a well-formed venue (ids strictly increasing): the book as of the id of
+an event `c` is the result of applying the venue's history up to and including `c`, in order -/
+theorem bookAt_is_history_prefix (pre post : Venue) (c : Change) (side : Side)
+    (h : Venue.WF (pre ++ c :: post)) :
+    bookAt (pre ++ c :: post) c.id side =
+      applyLevels (fun _ => 0)
+        (((pre ++ [c]).filter fun d => decide (d.side = side)).map fun d => ⟨d.price, d.amount⟩) := by
+  unfold bookAt; rw [changesUpTo_prefix pre post c side h]
+
 /-! ## 3. the book is the exchange's book at the sequence it reports — or the consumer is told -/
 
 /-- the initial local state: fresh sequencer at the snapshot id, the snapshot as book -/
